@@ -31,6 +31,8 @@ INVARIANT C14_Fills
 INVARIANT C14_Equity
 INVARIANT C08_FillAtNextOpen
 INVARIANT C19_Membership
+INVARIANT C07_Causal
+INVARIANT C07_NoFuture
 INVARIANT C01_Ledger
 INVARIANT C02_Holdings
 INVARIANT C04_Status
@@ -75,7 +77,7 @@ def _real_job(job):
 def compare(c, exp, out):
     """exp: TLC outcome [err, errt, curve, allocs, fills, cash, holdings, table]; out: real Outcome.
     Returns list of (kind, detail)."""
-    err, errt, curve, allocs, fills, cash, holdings, table = exp
+    err, errt, curve, allocs, fills, cash, holdings, table = exp[:8]
     A = sr.ASSETS
     sym = lambda n: "EQ:" + A[n - 1]
     res = []
@@ -166,7 +168,7 @@ OWN = {
 
 
 def features(c, exp):
-    err, errt, curve, allocs, fills, cash, holdings, table = exp
+    err, errt, curve, allocs, fills, cash, holdings, table = exp[:8]
     f = set()
     if len(allocs) >= 2:
         f.add("two-rebalances")
